@@ -204,6 +204,14 @@ class Interp:
             r.nz = True
         return r
 
+    def is_zero(self, d, st):
+        """d is literally 0, or the fact store pins it to 0 on this path (e.g. `if (rv == 0.0) return rv;`)."""
+        if d is None:
+            return False
+        if d.is_zero():
+            return True
+        return self.interval_of(d, st).is_zero()
+
     @staticmethod
     def _meet(x, y):
         r = x.copy()
